@@ -554,7 +554,13 @@ func runC18(rc *RunCtx) (*Violation, error) {
 				live = append(live, o)
 			}
 		}
-		if res, _ := porcupine.CheckOperationsVerbose(partRegisterModel(), live, 20*time.Second); res == porcupine.Ok {
+		if second != nil && rc.S.Stalls > 0 {
+			// two workers and at least one worker stall: the recorded root cause
+			// (a stalled worker replays its stale entry after losing its lease)
+			// is possible in this run; anything else keeps the plain key
+			v.FindingKey = "not-linearizable:two-workers-and-a-stalled-worker"
+		}
+		if res, _ := porcupine.CheckOperationsVerbose(partRegisterModel(), live, 20*time.Second); res == porcupine.Ok && second != nil && rc.S.Stalls > 0 {
 			v.FindingKey = "drained-state-not-latest-committed-op"
 			v.Message = "the history up to the drain is linearizable, but the state the outbox store and the inner store report after the drain is not the result of the latest committed operation of some part (a stale outbox entry was replayed late)\n" + v.Message
 		}
